@@ -1213,7 +1213,12 @@ pub fn c08(tier: &str) -> Vec<Family> {
         }
         big
     };
+    // Accepted same-time events from one origin that exceed the target mailbox: every one fires.
+    let mut batches = family_named(c03(tier), "scheduler_batches");
+    batches.tags = TAGS_SCHED;
+    batches.hang_is_violation = true;
     vec![
+        batches,
         Family::new("same_instant_mt2", TAGS_SCHED_BIG, mk_big(1)).uncontrolled(2, 2).hang_violation(),
         Family::new("same_instant_mt4", TAGS_SCHED_BIG, mk_big(3)).uncontrolled(4, 2).hang_violation(),
         Family::new("request_validation", TAGS_SCHED, sc).hang_violation(),
@@ -1898,10 +1903,11 @@ pub fn c14(tier: &str) -> Vec<Family> {
     }
     let mut fams = vec![Family::new(
         "query_replies",
-        &["replies", "replies_early", "delivery_dup", "delivery_invented", "delivery_lost", "delivery_value"],
+        &["replies", "replies_early", "delivery_dup", "delivery_invented", "delivery_lost", "delivery_value", "half_handler", "pending_send"],
         sc,
     )
-    .cap(cap)];
+    .cap(cap)
+    .hang_violation()];
     // Port clones share one connection list.
     let x = NodeSpec::new("X", 2)
         .script(1, vec![Op::Connect { port: 0, target: 3 }, send(1, 2)])
@@ -2043,6 +2049,17 @@ pub fn c16(tier: &str) -> Vec<Family> {
             let f1 = NodeSpec::new("flooder1", 1).init(flood.clone()).out(vec![to(if order == 0 { 0 } else { 2 })]);
             let nodes = if order == 0 { vec![sink, f0, f1] } else { vec![f0, f1, sink] };
             sc.push(scn(format!("init_fan_in/cap{}/order{}", c, order), &Arc::new(BenchSpec::new(nodes)), vec![]));
+        }
+    }
+    // A model whose init overflows a neighbour's mailbox while that neighbour's handler queries it
+    // back: the sender is resumed as soon as the recipient takes a message, so this completes.
+    for c in [1usize, 2] {
+        for order in 0..2 {
+            let flood: Vec<Op> = (0..c + 1).map(|k| sendc(0, 1, k as i64)).collect();
+            let x = NodeSpec::new("x", 2).init(flood).out(vec![to(if order == 0 { 1 } else { 0 })]);
+            let y = NodeSpec::new("y", c).script(1, vec![query(0, 9)]).req(vec![to(if order == 0 { 0 } else { 1 })]);
+            let nodes = if order == 0 { vec![x, y] } else { vec![y, x] };
+            sc.push(scn(format!("init_overflow_query_back/cap{}/order{}", c, order), &Arc::new(BenchSpec::new(nodes)), vec![]));
         }
     }
     sc.push(scn("names/panic", &spec, vec![pe(0, 1, 1)]));
@@ -2397,6 +2414,25 @@ pub fn c19(tier: &str) -> Vec<Family> {
     let c = NodeSpec::new("C", 1);
     let d = NodeSpec::new("D", 1).parent(2);
     benches.push(("nested_simulation", Arc::new(BenchSpec::new(vec![a, b, c, d])), vec![pe(1, 2, 0), pe(0, 1, 0), pe(0, 3, 0)]));
+    // A same-time, same-origin batch whose first action fails (source connected to a dropped
+    // mailbox): the later actions of the batch and their arguments are released all the same.
+    {
+        let a = NodeSpec::new("A", 2);
+        let g = NodeSpec::new("G", 1).placement(Placement::Dropped);
+        let mut spec = BenchSpec::new(vec![a, g]);
+        spec.srcs = vec![vec![to(1)], vec![to(0)]];
+        benches.push((
+            "failing_batch",
+            Arc::new(spec),
+            vec![
+                Cmd::SchedSrc { src: 0, kind: SKind::Once, when: When::Rel(1), tag: 1, val: 1, slot: 0 },
+                Cmd::SchedSrc { src: 1, kind: SKind::Once, when: When::Rel(1), tag: 1, val: 2, slot: 0 },
+                Cmd::Sched { node: 0, kind: SKind::Periodic(1), when: When::Rel(1), tag: 1, val: 3, slot: 0 },
+                Cmd::SchedSrc { src: 1, kind: SKind::KeyedPeriodic(2), when: When::Rel(1), tag: 1, val: 4, slot: 1 },
+                Cmd::Step,
+            ],
+        ));
+    }
     for (name, spec, cmds) in &benches {
         for pos in 0..=cmds.len() {
             let mut c2 = cmds.clone();
